@@ -11,7 +11,8 @@ INFO = {
              '/ render_provides of an application-level, route-level or embedded-application middleware, same '
              'middleware twice, one tuple twice)} + {every reserved name as application/route/embedded resource or '
              'URL binding} + {next not first / missing per phase and placement, endpoint/render taking next (required '
-             'or defaulted), context required in request phase / endpoint phase / endpoint}; the un-faulted '
+             'or defaulted), context required in request phase / endpoint phase / endpoint - also for a function object that was validly bound '
+             'in the render role before (history cells) - and a render_error requiring context}; the un-faulted '
              'configuration is the control and must construct and serve. The matrix is enumerated completely on 3 '
              'fixed base shapes (exhaustive for that sub-space) and sampled over generated valid configurations. '
              'Non-trivial = every distinct (fault, base) pair; cells hit are listed under classes.'),
@@ -318,6 +319,78 @@ def render_error_cells(ctx):
                 ctx.nt(['render-error', via, form], sample=False)
 
 
+def reuse_cells(ctx):
+    """history: the very function object was bound before in a role where its parameter is legitimate (render function /
+    render-phase hook taking `context`); declaring it afterwards in a role where the parameter is misuse - in another
+    application, in the same one through add(), or next to the valid use in one list - is rejected all the same"""
+    from clastic import Application, Route, Response, Middleware
+
+    def fresh():
+        def produce():
+            return {'answer': 42}
+
+        def show(context):
+            return Response(repr(context))
+
+        def show_kw(*, context):
+            return Response(repr(context))
+
+        def hook(next, context):
+            return next()
+        return produce, show, show_kw, hook
+
+    def mw_with(**funcs):
+        return type('ZqReuseMW', (Middleware,), {k: staticmethod(v) for k, v in funcs.items()})()
+
+    def plain():
+        return Response('ok')
+    for form in ('pos', 'kwonly'):
+        for via in ('other-application', 'same-application-add', 'same-list', 'hook-as-request', 'hook-as-endpoint', 'control-fresh'):
+            case = {'base': 'reuse', 'fault': {'f': 'context-required', 'who': 'reused-function', 'via': via, 'form': form}}
+            ctx.case(case)
+            produce, show, show_kw, hook = fresh()
+            f = show if form == 'pos' else show_kw
+            try:
+                if via == 'control-fresh':
+                    app1 = None
+                elif via.startswith('hook'):
+                    app1 = Application([Route('/r', produce, render=f, middlewares=[mw_with(render=hook)])])
+                else:
+                    app1 = Application([Route('/r', produce, render=f)])
+                if app1 is not None:
+                    from vlib.wsgi import call
+                    r = call(app1, '/r')
+                    ctx.requests += 1
+                    if r.status != 200 or b'42' not in r.body:
+                        ctx.mismatch('control-rejected', 'valid use of a render function taking context answered %s %r' % (r.status, r.body[:60]), case)
+                        continue
+            except Exception as e:
+                ctx.mismatch('control-rejected', 'valid use of a render function / render hook taking context was rejected: %r' % e, case)
+                continue
+            try:
+                if via in ('other-application', 'control-fresh'):
+                    Application([Route('/e', f)])
+                elif via == 'same-application-add':
+                    app1.add(Route('/e', f))
+                elif via == 'same-list':
+                    Application([Route('/r', produce, render=f), Route('/e', f)])
+                elif via == 'hook-as-request':
+                    Application([Route('/e', plain, middlewares=[mw_with(request=hook)])])
+                else:
+                    Application([Route('/e', plain, middlewares=[mw_with(endpoint=hook)])])
+                exc = None
+            except Exception as e:
+                exc = e
+            ctx.event('fault-context-required-reused-function')
+            if exc is None:
+                ctx.mismatch('accepted:context-required-reused-function', 'a function requiring `context`, validly bound as render function / '
+                             'render hook before, was accepted as %s (%s, %s parameter)' % ('endpoint' if not via.startswith('hook') else via[8:] + ' hook', via, form), case)
+            elif not isinstance(exc, (NameError, TypeError)):
+                ctx.mismatch('not-NameError:context-required-reused-function', '%s raised %r' % (via, exc), case)
+            else:
+                ctx.nt(['reuse', via, form], sample=False)
+
+
 def run_matrix(spec, ctx):
     matrix = fault_matrix()
     ctx.exhaustive = True
@@ -326,6 +399,10 @@ def run_matrix(spec, ctx):
             render_error_cells(ctx)
         except Exception as e:
             ctx.classify_exc(e, {'base': 'render-error', 'fault': None}, 'matrix')
+        try:
+            reuse_cells(ctx)
+        except Exception as e:
+            ctx.classify_exc(e, {'base': 'reuse', 'fault': None}, 'matrix')
     ctx.note('fault matrix has %d cells x 2 (provider with / without its phase function) per base shape' % len(matrix))
     for bi in spec['bases']:
         base = BASES[bi]
@@ -388,6 +465,9 @@ def run_shard(spec, ctx):
 def replay(case, kind, ctx):
     if isinstance(case, dict) and case.get('base') == 'render-error':
         render_error_cells(ctx)
+        return
+    if isinstance(case, dict) and case.get('base') == 'reuse':
+        reuse_cells(ctx)
         return
     if kind == 'matrix' or isinstance(case, dict):
         base = BASES[case['base']]
